@@ -15,6 +15,13 @@ import time
 ROOT = '/verif'
 REPO = '/repo'
 TARGET = os.path.join(ROOT, 'target')
+OUT = ROOT        # evidence/ and replays/ go here
+# Experimentation only (never used by a registered command): VC_ALT=<checkout>:<output dir> runs a check against another
+# checkout of cicada (e.g. a scratch worktree with a seeded change) with its own build and output directories, so that it
+# can run next to checks of /repo.
+if os.environ.get('VC_ALT'):
+    REPO, OUT = os.environ['VC_ALT'].split(':', 1)
+    TARGET = os.path.join(OUT, 'target')
 HARNESS_DIR = os.path.join(ROOT, 'harness')
 VCHECK = os.path.join(TARGET, 'harness', 'debug', 'vcheck')
 VH = os.path.join(TARGET, 'harness', 'debug', 'vh')
@@ -47,7 +54,8 @@ def build(verbose=False):
     """(Re)build the harness, the helper programs and the real binary from /repo's
     current working tree with the hooks enabled. Incremental."""
     t0 = time.time()
-    p1 = subprocess.Popen(['cargo', 'build', '--offline', '-q'], cwd=HARNESS_DIR, env=cargo_env(),
+    alt = ['--target-dir', os.path.join(TARGET, 'harness'), '--config', 'paths=["%s"]' % REPO] if REPO != '/repo' else []
+    p1 = subprocess.Popen(['cargo', 'build', '--offline', '-q'] + alt, cwd=HARNESS_DIR, env=cargo_env(),
                           stdout=subprocess.PIPE, stderr=subprocess.STDOUT)
     p2 = subprocess.Popen(['cargo', 'build', '--offline', '-q', '--manifest-path', os.path.join(REPO, 'Cargo.toml'),
                            '--features', 'cicada_verif', '--bin', 'cicada',
@@ -403,7 +411,7 @@ class Report:
                 known_hits.append((sig, v))
             else:
                 new.append((sig, v))
-        rdir = os.path.join(ROOT, 'replays', self.prop)
+        rdir = os.path.join(OUT, 'replays', self.prop)
         lines = []
         for sig, v in known_hits:
             k = open_known[sig]
@@ -452,11 +460,11 @@ class Report:
             'wall_s': round(wall, 3),
             'violations': len(new),
         }
-        os.makedirs(os.path.join(ROOT, 'evidence'), exist_ok=True)
-        tmp = os.path.join(ROOT, 'evidence', '%s.json.tmp' % self.prop)
+        os.makedirs(os.path.join(OUT, 'evidence'), exist_ok=True)
+        tmp = os.path.join(OUT, 'evidence', '%s.json.tmp' % self.prop)
         with open(tmp, 'w') as f:
             json.dump(ev, f, indent=1, default=repr)
-        os.replace(tmp, os.path.join(ROOT, 'evidence', '%s.json' % self.prop))
+        os.replace(tmp, os.path.join(OUT, 'evidence', '%s.json' % self.prop))
         for l in lines:
             print(l)
         print('%s %s: evaluations=%d states=%d transitions=%d outcomes=%d new_violation_classes=%d known=%d wall=%.1fs%s' % (
